@@ -1027,7 +1027,7 @@ def replay_shave(r):
     addrs = BS.get_function_addresses()[0]
 
     def mk():
-        pb, kw, BacktrackSolver = build_real(dict(r, cfg={}))
+        pb, kw, BacktrackSolver = build_real(dict(r, cfg=dict(decision=r["decision"]) if r.get("decision") is not None else {}))
         s = BacktrackSolver(pb, **kw)
         return s
 
@@ -1041,6 +1041,8 @@ def replay_shave(r):
             if bound_consistency_algorithm(*args(s)) != 1:
                 return False, "root not unbound"
             d = H.VAR_HEURISTIC_FCTS[H.VAR_HEURISTIC_FIRST_NOT_INSTANTIATED](s.var_heuristic_params, s.decision_domains, s.shr_domains_stack, s.stacks_top)
+            if int(d) < 0:
+                return False, "no decision domain left"
             ev = H.DOM_HEURISTIC_FCTS[H.DOM_HEURISTIC_MIN_VALUE](s.dom_heuristic_params, s.shr_domains_stack, s.not_entailed_propagators_stack, s.dom_update_stack, s.stacks_top, d)
             P.add_propagators(s.triggered_propagators, s.not_entailed_propagators_stack[s.stacks_top[0]], s.problem.triggers, d, ev)
     top = int(s1.stacks_top[0])
@@ -1070,6 +1072,8 @@ def replay_shave(r):
             x = dom_of(v)
             if any(not (lo <= xi <= hi) for xi, (lo, hi) in zip(x, sh)):
                 fails.add("solution-shaved-away")
+        if int(bound_consistency_algorithm(*args(s1))) == 0 or s1.shr_domains_stack[top].tolist() != sh:
+            fails.add("result-is-not-bound-consistent")
     return kind in fails, f"failures={sorted(fails)} shaving=({st_sh},{sh}) bc=({st_bc},{bc}) entry={entry}"
 
 
@@ -1090,6 +1094,8 @@ def real_model(inst):
         from nucs.problems.latin_square_problem import LatinSquareRCProblem as K
     elif name == "quasigroup5":
         from nucs.examples.quasigroup.quasigroup_problem import Quasigroup5Problem as K
+    elif name == "quasigroup":
+        from nucs.examples.quasigroup.quasigroup_problem import QuasigroupProblem as K
     elif name == "magic_square":
         from nucs.examples.magic_square.magic_square_problem import MagicSquareProblem as K
     elif name == "magic_sequence":
@@ -1121,7 +1127,7 @@ def real_model(inst):
     configs = inst.get("configs") or [dict(), dict(dom_heuristic_idx=H.DOM_HEURISTIC_MAX_VALUE), dict(var_heuristic_idx=H.VAR_HEURISTIC_SMALLEST_DOMAIN, dom_heuristic_idx=H.DOM_HEURISTIC_SPLIT_LOW)]
     for ci, cfg in enumerate(configs):
         pb = K(*args)
-        if name == "latin_square_rc" or name == "quasigroup5":
+        if name in ("latin_square_rc", "quasigroup5", "quasigroup"):
             n = args[0]
             cfg = dict(cfg, decision_domains=list(range(n * n)))
         if name == "bibd":
@@ -1137,10 +1143,23 @@ def real_model(inst):
             else:
                 sol = s.minimize(pb.shr_domain_nb - 1)
                 results[ci] = None if sol is None else int(sol[pb.shr_domain_nb - 1])
+        elif inst.get("all_valid"):
+            # every solution of the real solver is judged by a definition-level validator: the result is the number of invalid ones
+            results[ci] = sum(1 for sol in s.solve() if not MODEL_VALIDATORS[inst["all_valid"]](sol.tolist(), args))
         else:
             s.solve_all()
             results[ci] = int(s.get_statistics()["SOLVER_SOLUTION_NB"])
     return results
+
+
+def _idempotent_latin(sol, args):
+    n = args[0]
+    m = [sol[i * n : (i + 1) * n] for i in range(n)]
+    full = set(range(n))
+    return all(set(r) == full for r in m) and all({m[i][j] for i in range(n)} == full for j in range(n)) and all(m[i][i] == i for i in range(n))
+
+
+MODEL_VALIDATORS = {"idempotent_latin": _idempotent_latin}
 
 
 def replay_models(r):
@@ -1173,6 +1192,8 @@ def replay_models(r):
     bad = []
     for inst in r["instances"]:
         exp = inst.get("count", inst.get("optimum"))
+        if inst.get("all_valid"):
+            exp = 0  # number of solutions rejected by the definition-level validator
         if exp is None:
             continue
         res = real_model(inst)
@@ -1182,7 +1203,7 @@ def replay_models(r):
 
 
 def validate_models(w):
-    exp = w.get("count", w.get("optimum"))
+    exp = 0 if w.get("all_valid") else w.get("count", w.get("optimum"))
     res = real_model(w)
     return all(v == exp for v in res.values()), f"real solver: {res}, expected {exp}"
 
